@@ -322,7 +322,7 @@ def _limit_memory():
     """a job whose encoding explodes must end as inconclusive (MemoryError), not take the machine down"""
     try:
         import resource
-        gb = float(os.environ.get('VERIF_JOB_MEM_GB', '6'))
+        gb = float(os.environ.get('VERIF_JOB_MEM_GB', '14'))
         resource.setrlimit(resource.RLIMIT_AS, (int(gb * (1 << 30)), int(gb * (1 << 30))))
     except Exception:
         pass
